@@ -65,3 +65,18 @@ Definition vR {A} (f : A -> value) (r : res A) : value :=
   | Ok a => L [I 0%Z; f a]
   | Raise e => L [I 1%Z; I (exn_code e)]
   end.
+
+(* executable equality on wire values (used by the thorough-tier cross-check of
+   the extracted binary against evaluation inside Coq) *)
+Fixpoint value_eqb (a b : value) : bool :=
+  match a, b with
+  | I x, I y => Z.eqb x y
+  | L la, L lb =>
+      (fix go (la lb : list value) : bool :=
+         match la, lb with
+         | [], [] => true
+         | x :: la', y :: lb' => value_eqb x y && go la' lb'
+         | _, _ => false
+         end) la lb
+  | _, _ => false
+  end.
